@@ -108,6 +108,8 @@ def _batch(chk, exe, model, tag, seed, n, state, samples, dist):
     if not b:
         return
     vlib.digest_batch(chk, b[0], b[1], classify, state)
+    dist["response_member_order_changed"] = dist.get("response_member_order_changed", 0) + \
+        sum(1 for (_, st, d) in b[1] if st == "ok" and d.endswith(" reordered"))
     if len(samples) < 4:
         samples += [c[:600] for c in b[0][:2]]
     try:
